@@ -69,8 +69,8 @@ type pointRun[P any] struct {
 	cfg   config
 	known map[string]*projection // validity of projected elements, computed once each
 	negOK bool
-	win   []pt                   // oracle [k]G, index k + W
-	real  []P                    // library [k]G
+	win   []pt // oracle [k]G, index k + W
+	real  []P  // library [k]G
 }
 
 func mkRunner[P any](a *papi[P]) runner {
@@ -297,7 +297,13 @@ func (r *pointRun[P]) run() {
 	guard(func() { g.idEnc[r.a.comp.rule] = r.a.toCompressed(r.a.id()) })
 	guard(func() { g.idEnc[r.a.uncomp.rule] = r.a.toUncompressed(r.a.id()) })
 	r.w.Emit(map[string]any{"a": "curve", "curve": r.a.name, "promise": g.promise(), "win": W,
-		"apis": func() []string { o := []string{}; for _, d := range decs { o = append(o, d.api) }; return append(o, "FromAffine") }()})
+		"apis": func() []string {
+			o := []string{}
+			for _, d := range decs {
+				o = append(o, d.api)
+			}
+			return append(o, "FromAffine")
+		}()})
 
 	// ---- (a) round trips and injectivity: window + specials that are elements of the type
 	type elem struct {
